@@ -1,6 +1,8 @@
 import Mkdb.Proofs.Select
 import Mkdb.Proofs.AliasCapture
 import Mkdb.Proofs.Meaning3
+import Mkdb.Proofs.SortAny1
+import Mkdb.Proofs.SortAny2
 import Mkdb.Props.C10
 /-!
 # C05 — single-table SELECT returns what its clauses mean
@@ -303,5 +305,281 @@ example : cut exQuery.lim (sortRows [(0, false)]
 example : Spec.satisfies exQuery (judgeHeader exFetch exQuery)
     [[.str [98], .int 3], [.str [97, 98], .int 1], [.str [97], .int 3]]
     [[.str [97, 98], .int 1], [.str [98], .int 3]] = true := by decide
+
+end Mkdb.Exec
+
+/-! ## ORDER BY under any correct sorting algorithm
+
+The model sorts with a stable insertion sort (`sortRows`).  The Go code sorts with `sort.Slice`
+(`sortColumns`, engine/select.go), which is an insertion sort up to 12 elements and a
+pattern-defeating quicksort above: from 13 rows on it is NOT stable, and rows that are tied under the
+sort keys may come back in another order than the model's - with LIMIT / OFFSET, other rows
+(`exTieRows13` below is an order `sort.Slice` of go1.23.5 really returns).  The theorems of this section
+are the bridge between the exact statements above (`rows = cut (sortRows keys want)`) and the code:
+`SortedPerm keys rows out` is what ANY correct sort may return (a rearrangement of `rows` in which no
+row is strictly before its predecessor under the comparison of `sortColumns`); without ties there is
+one such `out` and the exact statements describe the code whatever it sorts with; with ties every
+such `out`, cut, is what `Spec.satisfies` accepts - and the exact statements describe the model only.
+(The comparison `rowLess keys` is irreflexive, asymmetric and transitive on all rows -
+`rowLess_irrefl`, `rowLess_asymm`, `rowLess_trans`; "tied" is transitive on rows whose key columns hold
+values of one type or NULL - `C05_cmp_strict_weak` -, and on the others `sortColumns` panics:
+`C05_incomparable_keys_panic`.  So `sort.Slice` is never left with a comparison that is not a strict
+weak order.) -/
+namespace Mkdb.Exec
+open Mkdb.Sql Mkdb.Exec.SelectP Mkdb.Exec.MeaningP Mkdb.Exec.SortAnyP
+
+/-- what any correct sort may return, spelled out: a permutation of the input, sorted on consecutive
+pairs by the comparison of `sortColumns` -/
+theorem C05_SortedPerm_def (keys : List (Nat × Bool)) (rows out : List Row) :
+    SortedPerm keys rows out ↔ out.Perm rows ∧ Spec.sortedBy keys out = true := Iff.rfl
+
+/-- **C05.model_sort_is_a_correct_sort**: what the model's stable insertion sort returns is one of
+the lists a correct sort may return (`SortedPerm`), for every key list and every row list; on rows
+whose key columns are comparable, being sorted on consecutive pairs (the definition) and being sorted
+on all pairs are the same thing, for every correct sort. -/
+theorem C05_model_sort_is_a_correct_sort (keys : List (Nat × Bool)) (rows : List Row) :
+    SortedPerm keys rows (sortRows keys rows) ∧
+    ((∀ a ∈ rows, ∀ b ∈ rows, KeyComparable keys a b) → ∀ out, SortedPerm keys rows out →
+      out.Pairwise (fun a b => rowLess keys b a = false)) :=
+  ⟨sortRows_sortedPerm keys rows, fun hc _ h => sortedPerm_pairwise hc h⟩
+
+/-- **C05.sort_is_unique_without_ties**: if no two different positions of `rows` are tied under the
+sort keys (one of the two rows is strictly before the other), then every correct sort - stable or
+not - returns the same list: the one the model's `sortRows` returns.  This is what makes the exact
+theorems (`rows = cut (sortRows keys want)`) statements about the Go code, whose `sort.Slice` is not
+stable from 13 rows on: on tie-free keys stability does not matter.  No hypothesis on the types of
+the key columns: a tie-free list is totally ordered by the comparison.  Excluded: lists with two rows
+carrying the same key values (in particular a list holding one row twice), see
+`C05_tied_rows_have_several_correct_orders`. -/
+theorem C05_sort_is_unique_without_ties {keys : List (Nat × Bool)} {rows out : List Row}
+    (htf : ∀ (i j : Nat) (hi : i < rows.length) (hj : j < rows.length), i ≠ j →
+      rowLess keys rows[i] rows[j] = true ∨ rowLess keys rows[j] rows[i] = true)
+    (hout : SortedPerm keys rows out) : out = sortRows keys rows :=
+  sortedPerm_unique ((tieFree_iff_index keys rows).2 htf) hout
+
+/-- **C05.tie_free_sort_ignores_the_input_order**: the same for a sort that is handed a rearrangement
+`got` of the tie-free rows `want` (after a join or a grouping the model's rows come in the order of
+the nested loops or of the groups: C06, C07): every correct sort of `got` returns `sortRows keys want`.
+On tie-free keys the exact answer `cut (sortRows keys want)` depends neither on the sorting algorithm
+nor on the order in which the rows were produced. -/
+theorem C05_tie_free_sort_ignores_the_input_order {keys : List (Nat × Bool)} {want got out : List Row}
+    (htf : ∀ (i j : Nat) (hi : i < want.length) (hj : j < want.length), i ≠ j →
+      rowLess keys want[i] want[j] = true ∨ rowLess keys want[j] want[i] = true)
+    (hgot : got.Perm want) (hout : SortedPerm keys got out) : out = sortRows keys want :=
+  C05_sort_is_unique_without_ties htf (hout.of_perm hgot)
+
+/-- **C05.any_correct_sort_satisfies_the_reference**: under ORDER BY, whatever a correct sort - stable
+or not, e.g. Go's `sort.Slice`, unstable from 13 rows on - makes of the rows to be sorted, cut by
+OFFSET / LIMIT, is accepted by the reference `Spec.satisfies`.  `want` is the meaning of the query
+(`Spec.meaning`), `got` the rows handed to the sort: `want` itself for a single table, a
+rearrangement of it after a join or a grouping (C06, C07), `out` any sorted rearrangement of `got`.
+With ties `cut out` may hold other rows than the model's answer; the reference accepts it because it
+asks for: the right number of rows, sorted, the key values of the model's answer position by
+position, every row taken from the meaning (no more often than it occurs there).
+Hypotheses: `hob`, there is an ORDER BY (without one see
+`C05_without_order_by_only_insertion_order_is_accepted`); `hcomp`, the key columns hold values of one
+type or NULL (otherwise `sortColumns` panics and there is no answer). -/
+theorem C05_any_correct_sort_satisfies_the_reference {q : Select} {hdr : List Field}
+    {keys : List (Nat × Bool)} {want got out : List Row}
+    (hob : q.orderBy ≠ []) (hk : Spec.sortKeys q hdr = some keys)
+    (hcomp : ∀ a ∈ want, ∀ b ∈ want, KeyComparable keys a b)
+    (hgot : got.Perm want) (hout : SortedPerm keys got out) :
+    Spec.satisfies q hdr want (cut q.lim out) = true :=
+  satisfies_any_sort hob hk hcomp (hout.of_perm hgot)
+
+/-- **C05.reference_accepts_exactly_the_correct_sorts**: under ORDER BY, on a meaning `want` whose
+key columns hold comparable values, the reference `Spec.satisfies` accepts a result if and only if it
+is `cut out` (OFFSET rows dropped, at most LIMIT kept) for SOME correct sort `out` of `want` - some
+rearrangement of the meaning that is sorted by the keys.  So the specification neither demands
+stability (which Go's `sort.Slice` does not give from 13 rows on) nor lets through anything a correct
+sort followed by the cut could not have produced: it is exactly "sort correctly, then cut".
+Hypotheses as in `C05_any_correct_sort_satisfies_the_reference`; excluded: no ORDER BY (there the
+reference asks for the insertion order, `C05_without_order_by_only_insertion_order_is_accepted`). -/
+theorem C05_reference_accepts_exactly_the_correct_sorts {q : Select} {hdr : List Field}
+    {keys : List (Nat × Bool)} {want : List Row}
+    (hob : q.orderBy ≠ []) (hk : Spec.sortKeys q hdr = some keys)
+    (hcomp : ∀ a ∈ want, ∀ b ∈ want, KeyComparable keys a b) (result : List Row) :
+    Spec.satisfies q hdr want result = true ↔
+      ∃ out, SortedPerm keys want out ∧ cut q.lim out = result :=
+  ⟨accepted_is_cut_of_sort hob hk hcomp,
+   fun ⟨_, hout, hcut⟩ => hcut ▸ satisfies_any_sort hob hk hcomp hout⟩
+
+/-- **C05.answered_query_accepts_any_correct_sort**: the same, tied to the executor.  If the model of
+`EvaluateSelect` answers a single-table SELECT with ORDER BY (no aggregates, no GROUP BY), then the
+query has a meaning `want`, the keys resolve to `keys`, the model's answer is the stable one,
+`cut (sortRows keys want)`, and the answer of ANY implementation that filters and projects like the
+model and then sorts correctly - `cut out` for a `SortedPerm keys want out`; Go's unstable
+`sort.Slice` from 13 rows on - is accepted by the reference. -/
+theorem C05_answered_query_accepts_any_correct_sort {fetch : Bytes → Option Table} {q : Select}
+    {t : TableName} {rows : List Row} {hdr : List Field}
+    (hfrom : q.from_ = some (.table t)) (hagg : hasAggr q.list = false) (hgb : q.groupBy = [])
+    (hwhere : whereIsBoolean q = true) (hob : q.orderBy ≠ [])
+    (h : evaluateSelect fetch q = .ok (rows, hdr)) :
+    ∃ want keys, Spec.meaning fetch q = some want ∧ Spec.sortKeys q hdr = some keys ∧
+      rows = cut q.lim (sortRows keys want) ∧ SortedPerm keys want (sortRows keys want) ∧
+      ∀ out, SortedPerm keys want out → Spec.satisfies q hdr want (cut q.lim out) = true := by
+  obtain ⟨want, keys, hm, _, hk, hcomp, hrows, _⟩ :=
+    C05_result_is_the_reference_meaning hfrom hagg hgb hwhere h
+  exact ⟨want, keys, hm, hk, hrows, sortRows_sortedPerm keys want,
+    fun out hout => satisfies_any_sort hob hk hcomp hout⟩
+
+/-- **C05.exact_result_describes_any_sort_when_tie_free**: under the hypotheses of
+`C05_result_is_the_reference_meaning`, if no two rows of the meaning `want` (the filtered and
+projected rows) are tied under the resolved sort keys, then ANY implementation that filters and
+projects as the model does and then sorts correctly - stably or not: Go's `sort.Slice` is unstable
+from 13 rows on - returns exactly the `rows` the model returns: `cut out = rows` for every
+`SortedPerm keys want out`.  (`hm`, `hk` name the meaning and the keys, which `h` determines:
+`C05_result_is_the_reference_meaning`.)  Excluded: ties, where only
+`C05_any_correct_sort_satisfies_the_reference` holds; and the query without ORDER BY, where every pair
+of rows is tied: `C05_without_order_by_only_insertion_order_is_accepted`. -/
+theorem C05_exact_result_describes_any_sort_when_tie_free {fetch : Bytes → Option Table} {q : Select}
+    {t : TableName} {rows want : List Row} {hdr : List Field} {keys : List (Nat × Bool)}
+    (hfrom : q.from_ = some (.table t)) (hagg : hasAggr q.list = false) (hgb : q.groupBy = [])
+    (hwhere : whereIsBoolean q = true)
+    (h : evaluateSelect fetch q = .ok (rows, hdr))
+    (hm : Spec.meaning fetch q = some want) (hk : Spec.sortKeys q hdr = some keys)
+    (htf : ∀ (i j : Nat) (hi : i < want.length) (hj : j < want.length), i ≠ j →
+      rowLess keys want[i] want[j] = true ∨ rowLess keys want[j] want[i] = true) :
+    ∀ out, SortedPerm keys want out → cut q.lim out = rows := by
+  obtain ⟨want', keys', hm', _, hk', _, hrows, _⟩ :=
+    C05_result_is_the_reference_meaning hfrom hagg hgb hwhere h
+  rw [hm] at hm'; cases hm'
+  rw [hk] at hk'; cases hk'
+  intro out hout
+  rw [hrows, C05_sort_is_unique_without_ties htf hout]
+
+/-- **C05.without_order_by_only_insertion_order_is_accepted** (the special case without sort keys):
+a single-table SELECT without ORDER BY (no aggregates, no GROUP BY) that is answered has the empty key
+list, the model's answer is the meaning in insertion order, cut (`sortRows [] want = want`); under
+the empty key list EVERY pair of rows is tied and every rearrangement of `want` is "sorted"
+(`SortedPerm [] want out ↔ out.Perm want`), yet the reference accepts the insertion order only
+(`result = rows`).  So here the freedom of an unstable sort is NOT covered by the specification: the
+Go code calls `sort.Slice` also when there is no ORDER BY, with a comparison that is constantly
+false, and the result is right only because the library's insertion sort and pdqsort move nothing
+when nothing is less than anything (no documented guarantee of `sort.Slice`; observed on go1.23.5 for
+5 to 5000 rows). -/
+theorem C05_without_order_by_only_insertion_order_is_accepted {fetch : Bytes → Option Table}
+    {q : Select} {t : TableName} {rows : List Row} {hdr : List Field}
+    (hfrom : q.from_ = some (.table t)) (hagg : hasAggr q.list = false) (hgb : q.groupBy = [])
+    (hwhere : whereIsBoolean q = true) (hob : q.orderBy = [])
+    (h : evaluateSelect fetch q = .ok (rows, hdr)) :
+    ∃ want, Spec.meaning fetch q = some want ∧ Spec.sortKeys q hdr = some [] ∧
+      rows = cut q.lim want ∧ sortRows [] want = want ∧
+      (∀ out, SortedPerm [] want out ↔ out.Perm want) ∧
+      ∀ result, Spec.satisfies q hdr want result = true ↔ result = rows := by
+  obtain ⟨want, keys, hm, _, hk, _, hrows, _⟩ :=
+    C05_result_is_the_reference_meaning hfrom hagg hgb hwhere h
+  have hkeys := keys_nil_of_no_order_by hob hk
+  subst hkeys
+  rw [sortRows_stable_nokeys] at hrows
+  refine ⟨want, hm, hk, hrows, sortRows_stable_nokeys want, sortedPerm_nil_iff want, ?_⟩
+  intro result
+  rw [hrows]
+  exact satisfies_no_order_by_iff hdr want result hob hfrom hagg hgb
+
+/-! ### examples: a tie-free sort, a tied one, and what `sort.Slice` does with 13 rows -/
+
+/-- table `u(k, v)`: `k` = 1, 1, 0 (the first two rows are tied under `k`), `v` = 10, 20, 30 -/
+def exFetchTie (n : Bytes) : Option Table :=
+  if n = [117] then some ⟨[[107], [118]], [[.int 1, .int 10], [.int 1, .int 20], [.int 0, .int 30]]⟩
+  else none
+
+/-- `SELECT k, v FROM u ORDER BY k LIMIT 2` (tied) -/
+def exQueryTie : Select :=
+  { list := [⟨.expr (.val (.col ⟨[], [107]⟩)), []⟩, ⟨.expr (.val (.col ⟨[], [118]⟩)), []⟩]
+    from_ := some (.table ⟨[117], none⟩)
+    orderBy := [⟨⟨[], [107]⟩, false⟩]
+    lim := { limitActive := true, limit := 2 } }
+
+/-- `SELECT k, v FROM u ORDER BY v DESC LIMIT 2` (tie-free) -/
+def exQueryNoTie : Select := { exQueryTie with orderBy := [⟨⟨[], [118]⟩, true⟩] }
+
+def exTieRows : List Row := [[.int 1, .int 10], [.int 1, .int 20], [.int 0, .int 30]]
+
+-- non-vacuity of `C05_sort_is_unique_without_ties` and
+-- `C05_exact_result_describes_any_sort_when_tie_free`: three rows with distinct keys `v`
+example : exQueryNoTie.from_ = some (.table ⟨[117], none⟩) ∧ hasAggr exQueryNoTie.list = false ∧
+    exQueryNoTie.groupBy = [] ∧ whereIsBoolean exQueryNoTie = true ∧ exQueryNoTie.orderBy ≠ [] := by
+  decide
+example : evaluateSelect exFetchTie exQueryNoTie =
+    .ok ([[.int 0, .int 30], [.int 1, .int 20]], [⟨[117], [107]⟩, ⟨[117], [118]⟩]) := by decide
+example : Spec.meaning exFetchTie exQueryNoTie = some exTieRows := by decide
+example : Spec.sortKeys exQueryNoTie [⟨[117], [107]⟩, ⟨[117], [118]⟩] = some [(1, true)] := by decide
+example : TieFree [(1, true)] exTieRows := by decide
+example : ∀ (i j : Nat) (hi : i < exTieRows.length) (hj : j < exTieRows.length), i ≠ j →
+    rowLess [(1, true)] exTieRows[i] exTieRows[j] = true ∨
+      rowLess [(1, true)] exTieRows[j] exTieRows[i] = true :=
+  (tieFree_iff_index _ _).1 (by decide)
+example : SortedPerm [(1, true)] exTieRows
+    [[.int 0, .int 30], [.int 1, .int 20], [.int 1, .int 10]] := by decide
+example : sortRows [(1, true)] exTieRows =
+    [[.int 0, .int 30], [.int 1, .int 20], [.int 1, .int 10]] := by decide
+
+/-- **C05.tied_rows_have_several_correct_orders** (why `C05_sort_is_unique_without_ties` has its
+hypothesis, and non-vacuity of `C05_any_correct_sort_satisfies_the_reference`):
+`SELECT k, v FROM u ORDER BY k LIMIT 2` on three rows with `k` = 1, 1, 0.  The rows are not tie-free;
+two different lists are correct sorts of them - the stable one, which the model returns, and the one
+with the tied rows exchanged -; cut by `LIMIT 2` they hold DIFFERENT rows (`v` = 10 or `v` = 20 next
+to `v` = 30), the model answers with the first, and the reference accepts both - and does not accept
+the two rows out of order, nor a row that is not in the table. -/
+theorem C05_tied_rows_have_several_correct_orders :
+    Spec.meaning exFetchTie exQueryTie = some exTieRows ∧
+    Spec.sortKeys exQueryTie [⟨[117], [107]⟩, ⟨[117], [118]⟩] = some [(0, false)] ∧
+    ¬ TieFree [(0, false)] exTieRows ∧
+    (∀ a ∈ exTieRows, ∀ b ∈ exTieRows, KeyComparable [(0, false)] a b) ∧
+    sortRows [(0, false)] exTieRows = [[.int 0, .int 30], [.int 1, .int 10], [.int 1, .int 20]] ∧
+    SortedPerm [(0, false)] exTieRows [[.int 0, .int 30], [.int 1, .int 10], [.int 1, .int 20]] ∧
+    SortedPerm [(0, false)] exTieRows [[.int 0, .int 30], [.int 1, .int 20], [.int 1, .int 10]] ∧
+    evaluateSelect exFetchTie exQueryTie =
+      .ok ([[.int 0, .int 30], [.int 1, .int 10]], [⟨[117], [107]⟩, ⟨[117], [118]⟩]) ∧
+    Spec.satisfies exQueryTie [⟨[117], [107]⟩, ⟨[117], [118]⟩] exTieRows
+      [[.int 0, .int 30], [.int 1, .int 10]] = true ∧
+    Spec.satisfies exQueryTie [⟨[117], [107]⟩, ⟨[117], [118]⟩] exTieRows
+      [[.int 0, .int 30], [.int 1, .int 20]] = true ∧
+    Spec.satisfies exQueryTie [⟨[117], [107]⟩, ⟨[117], [118]⟩] exTieRows
+      [[.int 1, .int 10], [.int 0, .int 30]] = false ∧
+    Spec.satisfies exQueryTie [⟨[117], [107]⟩, ⟨[117], [118]⟩] exTieRows
+      [[.int 0, .int 30], [.int 1, .int 30]] = false := by
+  decide
+
+/-- thirteen rows `(k, id)`: `k` = 1 on the first, 0 on the twelve others -/
+def exTieRows13 : List Row :=
+  [.int 1, .int 0] :: (List.range 12).map fun i => [.int 0, .int (i + 1 : Nat)]
+
+/-- the order the Go function `sortColumns` itself (engine/select.go, run with go1.23.5 on these
+rows, key = first column ascending) leaves `exTieRows13` in: the row `id = 6` has moved to the front of its eleven equals -/
+def exGoOrder13 : List Row :=
+  ([6, 1, 2, 3, 4, 5, 7, 8, 9, 10, 11, 12].map fun (i : Nat) => [.int 0, .int i]) ++ [[.int 1, .int 0]]
+
+/-- **C05.unstable_sort_of_13_rows** (the smallest case in which the Go code and the model differ):
+for thirteen rows with the keys 1, 0, 0, …, 0 the list `sort.Slice` returns is a correct sort
+(`SortedPerm`), it is not the list the model returns, under `ORDER BY k LIMIT 1` the two answers are
+different rows (`id = 6` against `id = 1`), and the reference accepts both. -/
+theorem C05_unstable_sort_of_13_rows :
+    SortedPerm [(0, false)] exTieRows13 exGoOrder13 ∧
+    exGoOrder13 ≠ sortRows [(0, false)] exTieRows13 ∧
+    (exGoOrder13.take 1, (sortRows [(0, false)] exTieRows13).take 1) =
+      ([[.int 0, .int 6]], [[.int 0, .int 1]]) ∧
+    Spec.satisfies { exQueryTie with lim := { limitActive := true, limit := 1 } }
+      [⟨[117], [107]⟩, ⟨[117], [118]⟩] exTieRows13 (exGoOrder13.take 1) = true ∧
+    Spec.satisfies { exQueryTie with lim := { limitActive := true, limit := 1 } }
+      [⟨[117], [107]⟩, ⟨[117], [118]⟩] exTieRows13 ((sortRows [(0, false)] exTieRows13).take 1) = true := by
+  decide
+
+-- non-vacuity of `C05_without_order_by_only_insertion_order_is_accepted`: `SELECT k, v FROM u LIMIT 2`
+example : evaluateSelect exFetchTie { exQueryTie with orderBy := [] } =
+    .ok ([[.int 1, .int 10], [.int 1, .int 20]], [⟨[117], [107]⟩, ⟨[117], [118]⟩]) := by decide
+example : whereIsBoolean { exQueryTie with orderBy := [] } = true := by decide
+example : SortedPerm [(0, false)] [[.int 0, .int 30], [.int 1, .int 10], [.int 1, .int 20]]
+    (sortRows [(0, false)] [[.int 0, .int 30], [.int 1, .int 10], [.int 1, .int 20]]) := by decide
+example : exQueryTie.orderBy ≠ [] ∧ whereIsBoolean exQueryTie = true := by decide
+-- `C05_tie_free_sort_ignores_the_input_order`: a rearrangement of the three rows, sorted by `v` DESC
+example : ([[.int 1, .int 20], [.int 0, .int 30], [.int 1, .int 10]] : List Row).Perm exTieRows ∧
+    SortedPerm [(1, true)] [[.int 1, .int 20], [.int 0, .int 30], [.int 1, .int 10]]
+      [[.int 0, .int 30], [.int 1, .int 20], [.int 1, .int 10]] := by decide
+-- a rearrangement is a "correct sort" by no keys, and is refused
+example : SortedPerm [] exTieRows [[.int 1, .int 20], [.int 1, .int 10], [.int 0, .int 30]] ∧
+    Spec.satisfies { exQueryTie with orderBy := [] } [⟨[117], [107]⟩, ⟨[117], [118]⟩] exTieRows
+      [[.int 1, .int 20], [.int 1, .int 10]] = false := by decide
 
 end Mkdb.Exec
